@@ -32,7 +32,9 @@ REQUIRED = {"status_checks": 500, "state_finished": 20, "state_failed": 20, "sta
 LEVEL_TEXT = ("Exploration: every history to depth 4 (quick) / 5 (thorough) of the two jobs of a collection on the "
               "real queue code, status asked through the real Application.do_render_status for three writers and "
               "compared with a 20-line reference mapping of the sequential model's state; header safety of "
-              "content_disposition checked on 20k (quick) / 400k (thorough) generated filenames.")
+              "content_disposition checked on 20k (quick) / 400k (thorough) generated filenames. Every poll is repeated "
+              "through Application.dispatch() with two queue servers configured and the owning one flagged idle / "
+              "overloaded / down: the answer must be the same.")
 LEVEL_NOTE = "Trusts the queue model of C16/C17 for the job's real state and the reference mapping written from the statement."
 TECHNIQUE = "recorded history + reference mapping monitor over the real queue and real status handler; header-safety invariant on generated names"
 
